@@ -72,6 +72,7 @@ def run(report, tier, seed):
         c13_parser.parser_level(report, lean, inproc, seed, 400 if quick else 8000)
         package_level(report, sc, ybin, lean, seed, 3 if quick else 25)
         toposort_level(report, sc, inproc, lean, seed, 25 if quick else 300)
+        order_verdicts(report, sc, ybin, seed)
         lean.close()
 
 
@@ -264,6 +265,48 @@ def package_level(report, sc, ybin, lean, seed, n):
                 report.violation("invalid-model-accepted-under-a-spelling", {"seed": seed, "model_index": i, "verdicts(short,expanded)": verdicts,
                                                                               "files": c01._files(v)},
                                  "a model with an unknown type is accepted under some spelling")
+
+
+def order_verdicts(report, sc, ybin, seed):
+    """accept-both-or-reject-both under definition order and file layout, on packages that break a rule (where a verdict that depends on which
+    definition is met first shows): every multi-definition violation of the C09 matrix, its definitions in the given order, reversed, shuffled,
+    and split over two files in both file orders"""
+    from checks import c09
+    rr = random.Random(seed * 271 + 13)
+    P = lambda n: ("prim", n)
+    filler = [{"kind": "record", "name": "ZzFill", "tparams": [], "fields": [("a", P("int32"))]},
+              {"kind": "protocol", "name": "ZzFillP", "steps": [("a", ("named", "ZzFill", []), False)]}]
+    for rule, mk in c09.DEF_VIOLATIONS:
+        defs = mk()
+        if isinstance(defs, str):
+            defs = c09._cycle(defs, "Nope") if not defs.startswith("through-imported") else None
+        if not defs or len(defs) < 2:
+            continue
+        orders = {"as-written": list(defs), "reversed": list(reversed(defs))}
+        sh = list(defs)
+        rr.shuffle(sh)
+        orders["shuffled"] = sh
+        verdicts = {}
+        for oname, ds in orders.items():
+            for layout in ("one-file", "two-files", "two-files-swapped"):
+                pkg = modelgen.Package("Ord")
+                pkg.defs = copy.deepcopy(filler[:1] + ds + filler[1:])
+                if layout != "one-file":
+                    names = [d["name"] for d in pkg.defs]
+                    k = 1 + len(ds) // 2
+                    pkg.files = [names[:k], names[k:]] if layout == "two-files" else [names[k:], names[:k]]
+                ok, text, d = c09._validate(ybin, sc.path("ord"), f"{rule}-{oname}-{layout}", pkg, None)
+                verdicts[(oname, layout)] = ok
+                report.case(distinct_key=("order-verdict", rule, oname, layout))
+                report.count("order-verdicts")
+                if "panic" in text or "goroutine " in text:
+                    report.violation("order:panic", {"rule": rule, "order": oname, "layout": layout, "output": text[-1500:], "files": c09._files(d), "seed": seed}, "")
+        if len(set(verdicts.values())) != 1:
+            acc = [f"{o}/{l}" for (o, l), v in verdicts.items() if v]
+            rej = [f"{o}/{l}" for (o, l), v in verdicts.items() if not v]
+            report.violation(f"verdict-depends-on-definition-order:{rule}", {"rule": rule, "accepted_in": acc, "rejected_in": rej, "definitions": [d["name"] for d in defs], "seed": seed,
+                                                                            "files_accepted": c09._files(os.path.join(sc.path("ord"), f"{rule}-{acc[0].replace('/', '-')}"))},
+                             "the same definitions are accepted in one order / file layout and rejected in another")
 
 
 def _generate(lab):
